@@ -109,3 +109,23 @@ UNITS.append(U(name='ref_validate_hostname', props=['C11', 'C01'], kind='bounded
                sub='"syntactically invalid hosts": the real validator agrees with an independent reference on every name up to N bytes',
                assumes=['IP-literal form "[...]" is handed to inet_pton (libc, external): not covered', 'the 63-byte label limit and the 255-byte total limit need names longer than N: not covered (bounded run with N = 67 does not finish)']))
 # label-length edge (63/64) needs names of 65+ bytes: three nested scanning loops x 70 unwindings do not finish (tried 40 min, twice): NOT covered, said in assumes above.
+
+# ---- host-name normalisation (what is reported as request_hostname / compared with the Host field) ----------------------------
+NH = r'''typedef struct { unsigned char a[N]; size_t la; } vin_t;
+static struct { bstr b; unsigned char d[N]; } nhb;
+void HARNESS(void) { VIN(vin_t);
+  VASSUME(in.la <= N);
+  nhb.b.len = in.la; nhb.b.size = N; nhb.b.realptr = NULL;
+  for (size_t i = 0; i < N; i++) nhb.d[i] = in.a[i];
+  bstr *r = htp_normalize_hostname_inplace(&nhb.b);
+  size_t e = in.la; while (e > 0 && in.a[e - 1] == '.') e--;          /* reference: drop every trailing dot, fold A-Z */
+  VASSERT(r == &nhb.b && nhb.b.size == N && nhb.b.realptr == NULL, "in place: same object, capacity untouched");
+  VASSERT(bstr_len(&nhb.b) == e, "exactly the trailing dots are removed");
+  for (size_t i = 0; i < N; i++) if (i < e) VASSERT(nhb.d[i] == ((in.a[i] >= 'A' && in.a[i] <= 'Z') ? in.a[i] + 32 : in.a[i]), "every other byte is kept, A-Z folded to lower case");
+  VASSERT(htp_normalize_hostname_inplace(NULL) == NULL, "NULL is passed through");
+  CANARY(); }'''
+UNITS.append(U(name='ref_normalize_hostname', props=['C11', 'C13', 'C02', 'C01'], kind='bounded', src=['htp_util.c'], link=['bstr.c'], replay='vin', harness=NH,
+               defs={'quick': dict({'N': 8}, **XD), 'thorough': {'N': 12}}, flags_add=['--unwind', '15', '--unwinding-assertions'], timeout=(300, 900),
+               bound='all host names of length <= N bytes (N = 8 quick, 12 thorough) over all byte values',
+               sub='real htp_normalize_hostname_inplace (the form in which the target host is reported and compared with the Host field): lower-cased, exactly the trailing dots removed, nothing else changed',
+               assumes=['C locale (tolower is ASCII case folding)']))
